@@ -15,7 +15,6 @@ import (
 	"sync"
 	"time"
 
-	"github.com/cenkalti/backoff/v4"
 	"github.com/gebn/bmc"
 	"github.com/gebn/bmc/pkg/ipmi"
 )
@@ -23,6 +22,7 @@ import (
 func init() {
 	executors["conc"] = execConc
 	scenarios["conc"] = genConc
+	executors["concu"] = execConcU
 }
 
 // one workload: open a session (suite by seed), a series of commands with some retried answers, sometimes a second
@@ -106,7 +106,8 @@ func concWorkload(seed int64) string {
 	}
 	ctx, cancel := context.WithTimeout(context.Background(), 20*time.Second)
 	defer cancel()
-	t := bmc.VerifNewV2SessionlessTransport(send, 100*time.Millisecond, &backoff.ZeroBackOff{})
+	// in-memory transport, or (op concu) the real UDP transport through a loopback relay
+	t, closeRelay := newTransport(send, 100*time.Millisecond)
 	suites := []ipmi.CipherSuite{ipmi.CipherSuite3, ipmi.CipherSuite17, {AuthenticationAlgorithm: 2, IntegrityAlgorithm: 2, ConfidentialityAlgorithm: 1}}
 	if guid, err := t.GetSystemGUID(ctx); err == nil {
 		out = append(out, fmt.Sprintf("guid=%x", guid))
@@ -184,6 +185,9 @@ func concWorkload(seed int64) string {
 		}
 	}
 	t.Close()
+	closeRelay() // the relay's goroutine has ended before the request log is read
+	mu.Lock()
+	defer mu.Unlock()
 	return strings.Join(out, ",") + " | " + strings.Join(reqLog, ",")
 }
 
@@ -193,11 +197,25 @@ var concSuiteAlgs = map[byte][3]byte{1: {1, 0, 0}, 2: {1, 1, 0}, 3: {1, 1, 1}, 1
 func concSolo(seed int64) string {
 	cmd := exec.Command(os.Args[0], "concsolo", fmt.Sprint(seed))
 	cmd.Env = append(os.Environ(), "GORACE=atexit_sleep_ms=0") // a race-detector build otherwise sleeps 1 s at exit
+	if useUDP {
+		cmd.Env = append(cmd.Env, "VERIF_CONC_UDP=1")
+	}
 	out, err := cmd.Output()
 	if err != nil {
 		return "solo run failed: " + err.Error()
 	}
 	return strings.TrimRight(string(out), "\n")
+}
+
+// concu <N> <seed>: the same over the REAL transport (internal/pkg/transport: sockets, receive buffers), after one
+// connection has been dialled and closed again — state the transports share in the process (buffer pools, free lists)
+// is then in a used condition when the N connections are dialled
+func execConcU(a []string) (string, string) {
+	useUDP = true
+	defer func() { useUDP = false }()
+	_, closeProbe := newTransport(func(context.Context, []byte) ([]byte, error) { return nil, errors.New("timeout") }, 100*time.Millisecond)
+	closeProbe()
+	return execConc(a)
 }
 
 // conc <N> <seed>
@@ -247,5 +265,9 @@ func genConc(g *genCtx) {
 		for s := 0; s < seeds; s++ {
 			g.emit(Op{Class: 'P', NonTrivial: true, Kind: "conc", Args: []string{itoa(n), itoa(g.rng.Intn(1 << 20))}})
 		}
+	}
+	// over real sockets: 6…10 connections alive at once
+	for s := 0; s < seeds/2; s++ {
+		g.emit(Op{Class: 'P', NonTrivial: true, Kind: "concu", Args: []string{itoa(6 + g.rng.Intn(5)), itoa(g.rng.Intn(1 << 20))}})
 	}
 }
